@@ -1,8 +1,16 @@
 (* Dispatch table of model units for the correspondence check (val -> val). *)
 From Coq Require Import String.
 From V Require Import Prelude.Base Prelude.Val Prelude.TrueDiv gen.Kernels.
-From V Require Import Model.Interval.
-Open Scope string_scope.
+From V Require Import Model.Interval Model.Crypto Model.Sym Model.Types Model.Chain.
+
+Definition hash_of_id (i : Z) : option hash :=
+  if i =? 1 then Some SHA1 else if i =? 2 then Some SHA256 else if i =? 3 then Some SHA384
+  else if i =? 4 then Some SHA512 else None.
+Definition mk_env (l0 l1 l2 : Z) (rkid k1 k2 : bytes) : envelope :=
+  {| gke_version := 1; gke_flags := 2; gke_l0 := l0; gke_l1 := l1; gke_l2 := l2; gke_rkid := rkid;
+     gke_kdf_alg := []; gke_kdf_params := []; gke_secret_alg := []; gke_secret_params := [];
+     gke_priv_len := 512; gke_pub_len := 2048; gke_domain := []; gke_forest := [];
+     gke_l1_key := k1; gke_l2_key := k2 |}.
 
 Definition u_interval (a : val) : val :=
   match a with
@@ -15,8 +23,29 @@ Definition u_truediv (a : val) : val :=
   | _ => bad
   end.
 
+Definition u_chain_l2 (a : val) : val :=
+  match a with
+  | VL [VI hid; VI r1; VI r2; VI e1; VI e2; VI l0; VB rkid; VB k1; VB k2] =>
+    match hash_of_id hid with
+    | Some h => vres VB (compute_l2_key sym h r1 r2 (mk_env l0 e1 e2 rkid k1 k2))
+    | None => bad
+    end
+  | _ => bad
+  end.
+Definition u_chain_l1 (a : val) : val :=
+  match a with
+  | VL [VI hid; VB sd; VB rkid; VI l0; VB rk] =>
+    match hash_of_id hid with
+    | Some h => vres VB (compute_l1_key sym h sd rkid l0 rk)
+    | None => bad
+    end
+  | _ => bad
+  end.
+
+Open Scope string_scope.
 Definition units : list (string * (val -> val)) :=
-  [ ("interval", u_interval); ("truediv", u_truediv) ].
+  [ ("echo", fun v => v); ("interval", u_interval); ("truediv", u_truediv);
+    ("chain.l2", u_chain_l2); ("chain.l1", u_chain_l1) ].
 
 Fixpoint lookup (n : string) (l : list (string * (val -> val))) : option (val -> val) :=
   match l with
